@@ -174,6 +174,30 @@ static void kernel(const std::vector<std::string>& t)
     auto b = unhex(t[2]);
     fprintf(OUT, "k crcok %d\n", (int)isCrc32Correct(b.data(), b.size()));
   }
+  else if (k == "direct")
+  {
+    // K direct <type code> <wait 0/1> <hex packets separated by ','>: a decoder driven directly (no driver, no
+    // input layer); every packet lives in a heap buffer of exactly its size, so ASan sees any over-read
+    RSDecoderParam p; p.wait_for_difop = L(3) != 0; p.use_lidar_clock = true;
+    auto d = DecoderFactory<PC>::createDecoder((LidarType)L(2), p);
+    d->point_cloud_ = std::make_shared<PC>();
+    size_t clouds = 0, errs = 0;
+    d->regCallback([&](const Error&) { errs++; }, [&](uint16_t, double) { clouds++; d->point_cloud_->points.clear(); });
+    std::string all = t.size() > 4 ? t[4] : "";
+    size_t pos = 0; size_t n = 0;
+    while (pos <= all.size())
+    {
+      size_t q = all.find(',', pos); if (q == std::string::npos) q = all.size();
+      std::vector<uint8_t> b = unhex(all.substr(pos, q - pos));
+      uint8_t* heap = (uint8_t*)malloc(b.size() ? b.size() : 1);   // exact-size heap block
+      if (b.size()) memcpy(heap, b.data(), b.size());
+      if (b.size() >= 2 && heap[0] == 0xA5 && heap[1] == 0xFF) d->processDifopPkt(heap, b.size());
+      else d->processMsopPkt(heap, b.size());
+      free(heap);
+      n++; pos = q + 1;
+    }
+    fprintf(OUT, "k direct %zu\n", n);
+  }
   else if (k == "overflow")
   {
     // does processMsopPkt discard an open frame of n points?  (packet of a wrong length: nothing else happens)
